@@ -88,6 +88,25 @@ def run(ctx):
         p_ = op_place(op)
         if p_ is None or depth > 3:
             return [(b, op)]
+        # a field of a private classification value (`CountViolation::Repeated { actual }` consumed by `into_error(self)`): the
+        # value is what the construction sites of that variant put into the field
+        srcs_ = list(Tracer(b).sources(op))
+        if len(srcs_) == 1 and srcs_[0][0] == "field" and srcs_[0][1][0] == "arg" and depth < 3:
+            from ..cfg import thaw as _thaw
+            proj_ = [e_ for e_ in _thaw(srcs_[0][2]) if isinstance(e_, dict)]
+            k_ = srcs_[0][1][1]
+            aty_ = ty_adt(strip_refs(b.local_ty(k_)) if 1 <= k_ <= b.argc else {}) or ""
+            a_ = F.adt(aty_) if aty_ else None
+            fields_ = [e_["f"] for e_ in proj_ if "f" in e_]
+            variant_ = next((e_["dc"] for e_ in proj_ if "dc" in e_), 0)
+            if a_ and a_.get("local") and a_.get("vis") != "pub" and aty_.startswith("conjure_http::") and len(fields_) == 1:
+                out_ = []
+                for x in c.bodies:
+                    for _, _, s2 in x.stmts():
+                        if s2["r"].get("agg") == "adt" and s2["r"]["adt"] == aty_ and s2["r"].get("vi", 0) == variant_ and fields_[0] < len(s2["r"]["ops"]):
+                            out_ += origins(x, s2["r"]["ops"][fields_[0]], depth + 1)
+                if out_:
+                    return out_
         roots = Tracer(b).root_locals(op)
         if len(roots) == 1 and b.kind in ("fn", "assoc_fn") and b.d.get("vis") != "pub" and callers_of.get(b.id):
             k = next(iter(roots))
@@ -368,3 +387,13 @@ def const_bool_by_variant(body, facts, adt_path):
             for v in dt.allowed_variants(allowed, allv, names):
                 out.setdefault(v, set()).add(c["bool"])
     return out, wild, names
+
+
+_run_c09 = run
+
+
+def run(ctx):
+    _run_c09(ctx)
+    # R9.6 the partition of an error's parameters: a parameter the error type does not list as safe must not land in safe_params
+    from . import c17 as _c17
+    ctx.include(_c17, {"R17.2"}, "R9.6", "an error parameter not declared safe (it may echo request data) must not be exposed through Error::safe_params")
